@@ -18,6 +18,8 @@ UNITS = {
     'k_sites': dict(cpp='harness/k_sites.cpp', cdefs=('YK_VAL_CAP=16',)),
     's_c07l': dict(cpp='harness/s_session.cpp', coroutines=('T_reader_open', 'T_remover_session', 'T_epoch'), inline_all=True, sessions=2, cdefs=('YK_VAL_CAP=16', 'YK_MAX_SLEEPS=2', 'YK_NALLOC=3', 'YK_DRAIN_ROUNDS=1')),
     's_c01_gr': dict(cpp='harness/s_point.cpp', coroutines=('T_get0', 'T_remove1'), inline_all=True, cdefs=('YK_VAL_CAP=16', 'YK_NALLOC=4', 'YK_DRAIN_ROUNDS=2'), cuts=('delete_ofILb0', 'get_child_of', 'interior_node9delete_of', '9delete_ofEPvPNS_13tree_instanceEPNS_9base_nodeE')),
+    's_c01n': dict(cpp='harness/s_point.cpp', coroutines=('T_get0', 'T_remove1'), nested=True, cdefs=('YK_VAL_CAP=16', 'YK_NALLOC=4', 'YK_DRAIN_ROUNDS=3'), cuts=('delete_ofILb0', 'get_child_of', 'interior_node9delete_of', '9delete_ofEPvPNS_13tree_instanceEPNS_9base_nodeE')),
+    'i_point': dict(cpp='harness/s_point.cpp', intruder=True, cdefs=('YK_VAL_CAP=16', 'YK_NALLOC=6', 'YK_MAX_RETRIES=1'), cuts=('delete_ofILb0', 'get_child_of', 'interior_node9delete_of', '9delete_ofEPvPNS_13tree_instanceEPNS_9base_nodeE')),
     'n_misc': dict(cpp='harness/n_misc.cpp', cdefs=('YK_VAL_CAP=64',)),
     # scan on T0/T1: no interior node, no vector growth (the harness reserves), no retry clean-up (single thread)
     'n_scan': dict(cpp='harness/n_scan.cpp', cdefs=('YK_VAL_CAP=16', 'YK_NALLOC=12', 'YK_ARR_CAP=4', 'YK_MEMCPY_CAP=16', 'YK_MEMCMP_CAP=16'), defines=('YK_KEYB=2',),
@@ -26,6 +28,8 @@ UNITS = {
                     cuts=('get_child_of', '17_M_realloc_insert', '8_M_eraseEN'), defines=('YK_KEYB=2',)),
     'n_scan3': dict(cpp='harness/n_scan.cpp', cdefs=('YK_VAL_CAP=16', 'YK_NALLOC=16', 'YK_ARR_CAP=6', 'YK_MEMCPY_CAP=16', 'YK_MEMCMP_CAP=16'),
                     cuts=('17_M_realloc_insert', '8_M_eraseEN'), defines=('YK_KEYB=2',)),
+    'n_iscan': dict(cpp='harness/n_iscan.cpp', cdefs=('YK_VAL_CAP=136', 'YK_NALLOC=16', 'YK_ARR_CAP=9', 'YK_MEMCPY_CAP=16', 'YK_MEMCMP_CAP=16', 'YK_MAX_LAYERS=1'),
+                    cuts=('get_child_of', '17_M_realloc_insert', '8_M_eraseEN', '17_M_reallocate_map', '16_M_push_back_aux', '15_M_pop_back_aux'), defines=('YK_KEYB=2',), new_hints={512: 'iscan_context::stack_element'}),
     'k_value': dict(cpp='harness/k_value.cpp', cdefs=('YK_VAL_CAP=48',)),
 }
 
@@ -60,6 +64,7 @@ _SCAN_Q = [
     H('n_scan', 'H_scan_t0', 'real scan on a storage without root: OK_ROOT_IS_NULL / ERR_BAD_USAGE exactly as documented', SCANREQ, data=1),
     H('n_scan', 'H_scan_t0d', 'real scan on the empty deleted root: OK + empty result, node set = {root border}', SCANREQ, data=1),
     H('n_scan', 'H_scan_t1_n1', 'real scan<char> on T1(1) vs reference interval filter (order, keys, values, lengths, truncation, direction, bad usage)', 'T1(1); ' + SCANREQ + KEYB2, data=1),
+    H('n_scan', 'H_scan_t1_n1_long', 'same with endpoint keys of up to 264 bytes (the length does not fit the 8-bit key_length_type used inside nodes), forward', 'T1(1); endpoint keys 0..264 bytes (at most one of them longer than 16), bytes beyond the 10th 0x00' + KEYB2, data=1, timeout=900),
     H('n_scan', 'H_scan_t1_n2', 'same on T1(2), scrambled slots', 'T1(2); ' + SCANREQ + KEYB2, data=1, timeout=900),
     H('n_scan3', 'H_scan_t3_11', 'same on an interior root over two borders (scan crosses a node boundary; INF must ignore its key)', 'T3(2;1,1); ' + SCANREQ + KEYB2, data=2, timeout=1500),
     H('n_scan2', 'H_scan_t2_a1m1', 'same on two layers: root border with one link -> layer-1 border (endpoint translation between layers)', 'T2(1;1): keys of 8..16 bytes; ' + SCANREQ + KEYB2, data=1, recursion=2, timeout=1500),
@@ -81,7 +86,20 @@ _C05_SCAN_T = [
     H('n_scan2', 'H_c05_scan_put_t2_a2l1m1', 'scan + insert on T2(2;1)', 'T2(2;1); ' + SCANREQ + KEYB2, data=1, recursion=2, tier='thorough', timeout=3400),
 ]
 
+I2 = ('all schedules with at most TWO context switches at hook granularity (every atomic load/store of shared memory is a hook): A runs up to a hook, '
+      'B runs its WHOLE operation there, A finishes (its optimistic retries enabled, <= 1 retry per path, checked); site and visit of the switch '
+      'are case-split over queries (all sites on the path of A, visits 1..2), keys/values symbolic; SC')
+_GET_FUNCS = ['op_getEi$', 'L11find_border', 'border_node9get_lv_ofE']
+_REMOVE_FUNCS = ['op_removeEi$', 'L11find_border', 'border_node9get_lv_ofE', '22get_lv_of_without_lock', 'node_version644lockEv', 'delete_ofILb1', 'lock_parent', 'root_lockEv', 'border_node9delete_atE']
+_C01_I = [
+    H('i_point', 'H_i_get_remove_a0', 'get(k0) pre-empted at any hook, remove(k1) runs there completely (same or different key): results linearizable, an OK get has a non-null value with exactly the stored bytes, quiescent state well-formed, no lock left',
+      'T1(2); A=get, B=remove; ' + I2, data=4, sync=2, timeout=1500, windows=dict(funcs=_GET_FUNCS, visits=(1, 2))),
+    H('i_point', 'H_i_get_remove_a1', 'remove(k1) pre-empted at any hook, get(k0) runs there completely: the reader sees the old or the new state at every intermediate point of the writer',
+      'T1(2); A=remove, B=get; ' + I2, data=4, sync=2, timeout=1500, windows=dict(funcs=_REMOVE_FUNCS, visits=(1,))),
+]
+
 REGISTRY = {
+    'C01': _C01_I,
     'C03': _SCAN_Q + _SCAN_T,
     'C05': [
         H('n_t1', 'H_c05_get_miss_put_n1', 'get miss with checked_version on T1(1), then the real insert of that key: the recorded pair is stale', T1B),
